@@ -261,10 +261,20 @@ def fsym_to_float(sym):
         text = b"" if parts[2] == "-" else bytes.fromhex(parts[2])
         return float(text.decode("ascii"))
     if k == "bin":
-        neg, mant, scale, base, exp = (int(x) for x in parts[2:7])
-        v = float(mant)
-        v = fmul(v, float(scale))
-        v = fmul(v, powi(float(base), exp))
+        # ± n * 2^e rounded once (exact rational arithmetic; the exponent is clamped far outside the f64 range)
+        from fractions import Fraction
+        neg, n, e = (int(x) for x in parts[2:5])
+        if n == 0:
+            v = 0.0
+        elif e > 2200:
+            v = float("inf")
+        elif e < -2200:
+            v = 0.0
+        else:
+            try:
+                v = float(Fraction(n) * Fraction(2) ** e)
+            except OverflowError:
+                v = float("inf")
         return -v if neg else v
     raise ValueError(sym)
 
